@@ -1,31 +1,1025 @@
-//! C16 — placeholder (not registered in MANIFEST until built).
+//! C16 — observation is read-only and bound to its coordinate.
+//!
+//! Scheduled parties: clients delivering honest intents to 1–3 worldlines × 1–3 writer heads, the
+//! scheduler passes that commit them, an optional strand fork and checkpoints — and a READER whose
+//! `observe` / `observe_optic` calls are interleaved with all of that. Every read with an explicit
+//! historical coordinate is re-issued after every later commit, fork and checkpoint, and at the end.
+//! No fault is injected: reads interleaved with commits are the schedule.
+//!
+//! Oracle: (a) runtime / provenance / engine fingerprints identical around every read; (b) the same
+//! request twice in a row gives equal artifacts, equal ABI encodings and equal hashes; (c) a reading at
+//! `Tick(t)` says exactly what the scheduler recorded for entry `t` (and what replay yields) and never
+//! changes afterwards, except for the fields that record WHEN it was observed; (d) requests the history
+//! cannot serve give a typed error / obstruction that names the request, never a reading.
+
+mod fp;
+mod oracle;
+mod req;
+
+use std::collections::BTreeMap;
 
 use serde::{Deserialize, Serialize};
+use warp_core::{
+    ActorId, AuthorityBinding, AuthorityDomainId, AuthorityDomainRef, CausalAuthority, CausalPosture, EchoCoordinate, ForkStrandRequest, InboxPolicy,
+    ObservationArtifact, ObservationAt, ObservationError, ObservationProjection, ObservationRequest, ObservationService, ObserveOpticRequest,
+    ObserveOpticResult, OpticReading, OriginId, PlaybackMode, PostureDerivation, RetentionContractId, RetentionPosture, SealStrength, StepRecord,
+    WitnessBasis, WorldlineTick, WriterHead,
+};
 
-use crate::kernel::{Outcome, PropertySpec, Rng, RunCtx, Scenario, Tier};
+use crate::kernel::{self, Outcome, PropertySpec, Rng, RunCtx, Scenario, Tier};
+use crate::model::refstate::abs;
+use crate::props::c01::knobs;
+use crate::world::ids;
+use crate::world::prog::Step;
+use crate::world::runtime::{gen_intent, gen_world, head_key, wl_id, Fingerprint, Intent, PassResult, TargetSpec, World, WorldSpec};
+
+use oracle::{check_obs, check_optic, diff_artifact, diff_optic, err_kind, obstruction_kind, optic_is_historical, optic_target, wl_index, TickFact, Truth, H, V};
+use req::{frame_name, obs_request, optic_request, proj_name, AtSpec, BudgetSpec, CoordSpec, FocusSpec, OAt, ObsSpec, OpticSpec, PlanSpec, ProjSpec, Read, ShapeSpec, CHILD_WL, UNKNOWN_WL};
 
 pub const SPEC: PropertySpec = PropertySpec {
     id: "C16",
     level: "exploration",
-    rule: "placeholder",
-    quick_runs: 1,
-    thorough_runs: 1,
-    real_components: &[],
-    stub_components: &[],
-    assumptions: &[],
+    rule: "scenario = runtime world (1-3 worldlines x 1-3 heads, honest intents with unique nonces) + op tape of Deliver/Pass/Fork/Checkpoint/Observe where reads (observe with every frame x projection pairing, frontier/explicit/future/huge ticks, unknown and not-yet-forked worldlines, builtin/authored plans, instances, budgets, rights, installed/missing/failing query observers; observe_optic with generated focus/coordinate/aperture/budget incl. full provenance coordinates) are interleaved with commits; every historical request is re-issued after every later commit, fork and checkpoint and at the end; non-trivial = >=1 historical reading re-asked after >=1 later commit; distinct = hash of scenario",
+    quick_runs: 4_000,
+    thorough_runs: 40_000,
+    real_components: &[
+        "ObservationService::observe (validate_frame_projection, validate_observer_contract, resolve_coordinate, basis_posture, reading_envelope, artifact hash)",
+        "ObservationService::observe_optic (budget/aperture validation, lowering, witness basis incl. checkpoint-plus-tail, ReadIdentity)",
+        "ObservationArtifact::to_abi / ObserveOpticResult::to_abi + canonical CBOR",
+        "WorldlineRuntime + SchedulerCoordinator::super_tick + fork_strand; ProvenanceService (entry, checkpoint, replay_worldline_state_at); Engine (contract query observer registry)",
+    ],
+    stub_components: &[
+        "application rules: data-driven interpreter (honest programs only)",
+        "contract query observer: harness closure registered through Engine::register_contract_query_observer; answers vars=[mode,node] from the state at the resolved coordinate (frontier state, or provenance replay for Tick(t))",
+    ],
+    assumptions: &[
+        "resolved.observed_after_global_tick and artifact_hash (which folds it in) record when the observation was made: excluded from coordinate binding, checked to be monotone / >= the commit's global tick, and artifact_hash must still separate artifacts that differ",
+        "index convention taken from the docs: ObservationAt::Tick(t) names provenance entry t (= state after t+1 commits, replay cursor t+1); a CommitBoundary/QueryView frontier reports tick = number of commits with the root of the last commit; a RecordedTruth frontier reports the last entry",
+        "for the strand child worldline the frontier basis posture tracks parent movement: only its variant family is checked; historical coordinates must report StrandHistorical and are compared across time",
+        "after a checkpoint is added to a worldline, an optic reading's witness basis (and the read identity hash that folds it in) may switch to checkpoint-plus-tail or to a LiveTailRequiresReduction obstruction: payload, envelope and the rest of the identity must still be unchanged",
+        "fingerprints are taken around EVERY read from the compact {:?} rendering of runtime and provenance split into top-level fields (props/c16/fp.rs: same field set and the same two host_test instrumentation exclusions as the shared pretty-text fingerprint, ~30x cheaper; every byte of the rendering is covered) plus the shared engine fingerprint; a self-check requires the fingerprint to move across a committing pass",
+        "a typed refusal must be justified by the request or the recorded history (unknown worldline, tick beyond history, pairing, plan, instance, rights, uninstalled/failing query, declared budget); BudgetExceeded is accepted on its own numbers",
+        "a full provenance coordinate (worldline, tick, commit hash) whose commit hash differs from the recorded commit names history this runtime does not hold: a reading for it is reported as provenance_coordinate_mismatch_served",
+        "interpreter rules emit no materialization channels, so RecordedTruth payloads are empty channel lists (filters and ordering are still checked)",
+    ],
     fault_kinds: &[],
 };
 
 #[derive(Clone, Debug, Serialize, Deserialize)]
+pub enum Op {
+    Deliver(Intent),
+    Pass,
+    /// fork the child worldline (index 3) from `src` at tick `tick_sel % len(src)`
+    Fork { src: u8, tick_sel: u8 },
+    Checkpoint { wl: u8 },
+    Observe(Read),
+}
+
+#[derive(Clone, Debug, Serialize, Deserialize)]
 pub struct C16 {
-    pub placeholder: u8,
+    pub world: WorldSpec,
+    pub install_query: bool,
+    pub ops: Vec<Op>,
+}
+
+/// Upper bound on observe calls per run (first asks count twice: every first ask is issued twice in a row).
+const MAX_READS: u64 = 260;
+const MAX_ASKED: usize = 14;
+/// at most this many of the remembered historical requests may be ones that were refused when first asked
+const MAX_ASKED_REFUSED: usize = 4;
+
+// ---------------------------------------------------------------------------
+// Generation
+// ---------------------------------------------------------------------------
+
+fn gen_wl(rng: &mut Rng, n_wl: u8, forked: bool) -> u8 {
+    if forked && rng.chance(1, 4) {
+        return CHILD_WL;
+    }
+    match rng.below(24) {
+        0 => UNKNOWN_WL,
+        1 | 2 => CHILD_WL,
+        _ => rng.below(u64::from(n_wl)) as u8,
+    }
+}
+
+/// Mostly ticks a short history has (or will soon have); sometimes far beyond any history.
+fn gen_tick(rng: &mut Rng) -> u64 {
+    match rng.below(16) {
+        0 => u64::MAX,
+        1 => rng.range(6, 200),
+        _ => [0u64, 1, 2, 3, 4][rng.weighted(&[5, 4, 2, 1, 1])],
+    }
+}
+
+/// Deletions make later honest programs inapplicable (the pass fails and the head is quarantined);
+/// most scenarios replace them so that histories grow, some keep them so that reads also meet faulted heads.
+fn tame(step: &mut Step) {
+    match step {
+        Step::DeleteNode { .. } | Step::DeleteEdge { .. } => *step = Step::Noop,
+        Step::IfEdge { then, .. } => tame(then),
+        _ => {}
+    }
+}
+
+fn gen_obs(rng: &mut Rng, n_wl: u8, want_query: bool, forked: bool) -> ObsSpec {
+    let wl = gen_wl(rng, n_wl, forked);
+    let at = if rng.chance(1, 3) { AtSpec::Frontier } else { AtSpec::Tick(gen_tick(rng)) };
+    let proj = match rng.below(if want_query { 5 } else { 4 }) {
+        0 => ProjSpec::Head,
+        1 => ProjSpec::Snapshot,
+        2 => ProjSpec::Truth { channels: if rng.chance(1, 2) { None } else { Some((0..3u8).filter(|_| rng.chance(1, 2)).collect()) } },
+        _ => {
+            let vars = match rng.below(12) {
+                0 => vec![],
+                1 => vec![0, 1, 2],
+                2 => vec![9, 0],
+                3 => vec![0, 99],
+                4 => vec![2, 0],
+                _ => vec![rng.below(2) as u8, rng.below(6) as u8],
+            };
+            ProjSpec::Query { installed: !rng.chance(1, 8), vars }
+        }
+    };
+    let natural_frame = match proj {
+        ProjSpec::Head | ProjSpec::Snapshot => 0,
+        ProjSpec::Truth { .. } => 1,
+        ProjSpec::Query { .. } => 2,
+    };
+    let frame = if rng.chance(5, 6) { natural_frame } else { rng.below(3) as u8 };
+    let plan = match rng.below(24) {
+        0 => PlanSpec::Builtin(rng.below(4) as u8),
+        1 => PlanSpec::AuthoredInstalled,
+        2 => PlanSpec::AuthoredOther,
+        3 if matches!(proj, ProjSpec::Query { .. }) => PlanSpec::AuthoredInstalled,
+        _ => PlanSpec::Auto,
+    };
+    let budget = if rng.chance(2, 3) {
+        BudgetSpec::Unbounded
+    } else {
+        BudgetSpec::Bounded { max_payload: *rng.pick(&[0u64, 8, 64, 120, 4096, 4096, u64::MAX]), max_wit: *rng.pick(&[0u64, 1, 1, 2, u64::MAX]) }
+    };
+    ObsSpec { wl, at, frame, proj, plan, instance: rng.chance(1, 30), budget, cap: if rng.chance(1, 24) { Some(rng.below(4) as u8) } else { None } }
+}
+
+fn gen_optic(rng: &mut Rng, n_wl: u8, _avoid: bool, forked: bool) -> OpticSpec {
+    let wl = gen_wl(rng, n_wl, forked);
+    let at = match rng.below(10) {
+        0..=2 => OAt::Frontier,
+        3..=6 => OAt::Tick(gen_tick(rng)),
+        _ => OAt::Prov { wl: if rng.chance(1, 10) { (wl + 1) % n_wl.max(2) } else { wl }, tick: gen_tick(rng), true_hash: !rng.chance(1, 3) },
+    };
+    let coord = match rng.below(24) {
+        0 => CoordSpec::Strand { at },
+        1 => CoordSpec::Braid,
+        2 => CoordSpec::Retained,
+        _ => CoordSpec::Worldline { wl, at },
+    };
+    let focus = match rng.below(30) {
+        0 => FocusSpec::Strand,
+        1 => FocusSpec::Braid,
+        2 => FocusSpec::Retained,
+        3 => FocusSpec::Attachment,
+        4 => FocusSpec::Worldline((wl + 1) % 3),
+        _ => FocusSpec::Worldline(wl),
+    };
+    let shape = match rng.below(24) {
+        0 => ShapeSpec::Truth,
+        1 => ShapeSpec::Query,
+        2 => ShapeSpec::ByteRange { start: rng.below(8), len: *rng.pick(&[0u64, 16, 5000]) },
+        3 => ShapeSpec::Attachment,
+        4..=13 => ShapeSpec::Head,
+        _ => ShapeSpec::Snapshot,
+    };
+    OpticSpec {
+        focus,
+        coord,
+        shape,
+        max_bytes: *rng.pick(&[None, Some(0), Some(64), Some(127), Some(128), Some(200), Some(1024), Some(1024), Some(1024), Some(1024), Some(1024), Some(65536), Some(65536), Some(u64::MAX)]),
+        max_nodes: *rng.pick(&[None, Some(0), Some(8)]),
+        max_ticks: *rng.pick(&[None, None, None, Some(0), Some(1), Some(2), Some(8), Some(8), Some(8)]),
+        max_attachments: *rng.pick(&[None, Some(0), Some(1)]),
+        explicit_descent: rng.chance(1, 3),
+        proj_ver: rng.below(3) as u32,
+        reducer: if rng.chance(1, 3) { Some(rng.below(3) as u32) } else { None },
+        cap: rng.below(4) as u8,
+        optic: rng.below(3) as u8,
+    }
+}
+
+fn gen_read(rng: &mut Rng, n_wl: u8, install_query: bool, avoid: bool, forked: bool) -> Read {
+    if rng.chance(7, 10) {
+        let want_query = install_query || rng.chance(1, 3);
+        Read::Obs(gen_obs(rng, n_wl, want_query, forked))
+    } else {
+        Read::Optic(gen_optic(rng, n_wl, avoid, forked))
+    }
 }
 
 impl Scenario for C16 {
-    fn generate(_rng: &mut Rng, _tier: Tier, _avoid: bool) -> Self {
-        C16 { placeholder: 0 }
+    fn generate(rng: &mut Rng, tier: Tier, avoid: bool) -> Self {
+        let world = gen_world(rng, 3, 3, 4);
+        let n_wl = world.worldlines.len() as u8;
+        let mut kn = knobs(rng, avoid);
+        kn.absent_16 = 0;
+        let install_query = rng.chance(3, 4);
+        let calm = !rng.chance(1, 4);
+        let rounds = rng.urange(3, if tier == Tier::Thorough { 8 } else { 6 });
+        let fork_round = if rng.chance(2, 5) { Some(rng.urange(1, rounds.max(2) - 1)) } else { None };
+        let mut forked_from: Option<u8> = None;
+        let mut ops = Vec::new();
+        let mut nonce = 1u32;
+        for round in 0..rounds {
+            for _ in 0..rng.urange(1, 4) {
+                let mut intent = gen_intent(rng, &world, nonce, &kn);
+                nonce += 1;
+                if calm {
+                    intent.prog.steps.iter_mut().for_each(tame);
+                }
+                if forked_from == Some(intent.wl()) && rng.chance(1, 2) {
+                    intent.target = TargetSpec::Default { wl: CHILD_WL };
+                }
+                ops.push(Op::Deliver(intent));
+                if rng.chance(1, 6) {
+                    // a read while intents are pending in the inboxes
+                    ops.push(Op::Observe(gen_read(rng, n_wl, install_query, avoid, forked_from.is_some())));
+                }
+            }
+            for _ in 0..rng.urange(1, 2) {
+                ops.push(Op::Pass);
+            }
+            for _ in 0..rng.urange(1, 3) {
+                let r = gen_read(rng, n_wl, install_query, avoid, forked_from.is_some());
+                // sometimes a sibling at the same coordinate that differs only in the projection's
+                // channel filter: same (empty) payload, so only the projection separates the artifacts
+                let sibling = match &r {
+                    Read::Obs(o) if rng.chance(1, 3) => match &o.proj {
+                        ProjSpec::Truth { channels } => Some(Read::Obs(ObsSpec { proj: ProjSpec::Truth { channels: if channels.is_none() { Some(vec![rng.below(3) as u8]) } else { None } }, ..o.clone() })),
+                        _ => None,
+                    },
+                    _ => None,
+                };
+                ops.push(Op::Observe(r));
+                if let Some(sib) = sibling {
+                    ops.push(Op::Observe(sib));
+                }
+            }
+            if fork_round == Some(round) {
+                let src = rng.below(u64::from(n_wl)) as u8;
+                ops.push(Op::Fork { src, tick_sel: rng.below(8) as u8 });
+                forked_from = Some(src);
+                for _ in 0..rng.urange(0, 2) {
+                    let mut r = gen_read(rng, n_wl, install_query, avoid, forked_from.is_some());
+                    // aim some of the post-fork reads at the child
+                    if rng.chance(1, 2) {
+                        match &mut r {
+                            Read::Obs(o) => o.wl = CHILD_WL,
+                            Read::Optic(o) => {
+                                if let CoordSpec::Worldline { wl, .. } = &mut o.coord {
+                                    *wl = CHILD_WL;
+                                    o.focus = FocusSpec::Worldline(CHILD_WL);
+                                }
+                            }
+                        }
+                    }
+                    ops.push(Op::Observe(r));
+                }
+            }
+            if rng.chance(1, 5) {
+                let wl = if forked_from.is_some() && rng.chance(1, 3) { CHILD_WL } else { rng.below(u64::from(n_wl)) as u8 };
+                ops.push(Op::Checkpoint { wl });
+            }
+        }
+        for _ in 0..rng.urange(0, 2) {
+            ops.push(Op::Observe(gen_read(rng, n_wl, install_query, avoid, forked_from.is_some())));
+        }
+        C16 { world, install_query, ops }
     }
-    fn execute(&self, _ctx: &mut RunCtx) -> Outcome {
-        Outcome::Ok
+
+    fn execute(&self, ctx: &mut RunCtx) -> Outcome {
+        let mut w = match World::new(&self.world) {
+            Ok(w) => w,
+            Err(e) => return Outcome::violation("state_construction_failed", e),
+        };
+        if self.install_query {
+            if let Err(e) = w.engine.register_contract_query_observer(req::query_observer()) {
+                return Outcome::violation("query_observer_registration_failed", format!("{e:?}"));
+            }
+        }
+        let mut x = Exec::new(self);
+        match x.run(self, &mut w, ctx) {
+            Ok(()) => {
+                if x.nontrivial {
+                    ctx.nontrivial(&serde_json::to_vec(self).unwrap_or_default());
+                }
+                Outcome::Ok
+            }
+            Err((class, detail)) => Outcome::violation(class, detail),
+        }
+    }
+
+    fn shrink_candidates(&self) -> Vec<Self> {
+        let mut out = Vec::new();
+        let is_read = |o: &Op| matches!(o, Op::Observe(_));
+        // 1. drop reads
+        for i in 0..self.ops.len() {
+            if is_read(&self.ops[i]) {
+                let mut s = self.clone();
+                s.ops.remove(i);
+                out.push(s);
+            }
+        }
+        // 2. drop everything after the last read
+        if let Some(last) = self.ops.iter().rposition(is_read) {
+            if last + 1 < self.ops.len() {
+                let mut s = self.clone();
+                s.ops.truncate(last + 1);
+                out.push(s);
+            }
+        }
+        // 3. drop passes / deliveries / fork / checkpoint
+        for i in 0..self.ops.len() {
+            if !is_read(&self.ops[i]) {
+                let mut s = self.clone();
+                s.ops.remove(i);
+                out.push(s);
+            }
+        }
+        // 4. drop a worldline with everything that names it
+        if self.world.worldlines.len() > 1 {
+            for wi in (0..self.world.worldlines.len()).rev() {
+                let id = self.world.worldlines[wi].id;
+                let mut s = self.clone();
+                s.world.worldlines.remove(wi);
+                s.ops.retain(|o| match o {
+                    Op::Deliver(i) => i.wl() != id,
+                    Op::Fork { src, .. } => *src != id,
+                    Op::Checkpoint { wl } => *wl != id,
+                    Op::Observe(r) => !r.names_wl(id),
+                    Op::Pass => true,
+                });
+                out.push(s);
+            }
+        }
+        // 5. drop a non-default head (deliveries aimed at it go to the default writer)
+        for (wi, wl) in self.world.worldlines.iter().enumerate() {
+            if let Some(hi) = wl.heads.iter().rposition(|h| !h.default) {
+                let gone = wl.heads[hi].clone();
+                let mut s = self.clone();
+                s.world.worldlines[wi].heads.remove(hi);
+                for o in &mut s.ops {
+                    if let Op::Deliver(i) = o {
+                        let hit = match &i.target {
+                            TargetSpec::Exact { wl: x, head } => *x == wl.id && *head == gone.label,
+                            TargetSpec::Inbox { wl: x, name } => *x == wl.id && gone.inbox == Some(*name),
+                            TargetSpec::Default { .. } => false,
+                        };
+                        if hit {
+                            i.target = TargetSpec::Default { wl: wl.id };
+                        }
+                    }
+                }
+                out.push(s);
+            }
+        }
+        // 6. simpler programs, plain requests, single worker
+        for (oi, op) in self.ops.iter().enumerate() {
+            match op {
+                Op::Deliver(i) if i.prog.steps.len() > 1 => {
+                    for si in 0..i.prog.steps.len() {
+                        let mut s = self.clone();
+                        if let Op::Deliver(x) = &mut s.ops[oi] {
+                            x.prog.steps.remove(si);
+                        }
+                        out.push(s);
+                    }
+                }
+                Op::Observe(Read::Obs(o)) => {
+                    if let AtSpec::Tick(t) = o.at {
+                        if t > 0 {
+                            let mut s = self.clone();
+                            s.ops[oi] = Op::Observe(Read::Obs(ObsSpec { at: AtSpec::Tick(if t > 8 { 8 } else { t - 1 }), ..o.clone() }));
+                            out.push(s);
+                        }
+                    }
+                    let plain = ObsSpec { plan: PlanSpec::Auto, instance: false, budget: BudgetSpec::Unbounded, cap: None, ..o.clone() };
+                    if plain != *o {
+                        let mut s = self.clone();
+                        s.ops[oi] = Op::Observe(Read::Obs(plain));
+                        out.push(s);
+                    }
+                }
+                Op::Observe(Read::Optic(o)) => {
+                    if let CoordSpec::Worldline { wl, at } = &o.coord {
+                        let lower = |t: u64| if t > 8 { 8 } else { t - 1 };
+                        let at2 = match at {
+                            OAt::Tick(t) if *t > 0 => Some(OAt::Tick(lower(*t))),
+                            OAt::Prov { wl: pw, tick, true_hash } if *tick > 0 => Some(OAt::Prov { wl: *pw, tick: lower(*tick), true_hash: *true_hash }),
+                            _ => None,
+                        };
+                        if let Some(at2) = at2 {
+                            let mut s = self.clone();
+                            s.ops[oi] = Op::Observe(Read::Optic(OpticSpec { coord: CoordSpec::Worldline { wl: *wl, at: at2 }, ..o.clone() }));
+                            out.push(s);
+                        }
+                    }
+                    let plain = OpticSpec { max_bytes: Some(1024), max_nodes: None, max_ticks: None, max_attachments: None, explicit_descent: false, proj_ver: 0, reducer: None, cap: 0, optic: 0, ..o.clone() };
+                    if plain != *o {
+                        let mut s = self.clone();
+                        s.ops[oi] = Op::Observe(Read::Optic(plain));
+                        out.push(s);
+                    }
+                }
+                _ => {}
+            }
+        }
+        if self.world.workers > 1 {
+            let mut s = self.clone();
+            s.world.workers = 1;
+            out.push(s);
+        }
+        // 7. smaller initial states (a candidate whose state no longer builds, or whose programs no
+        //    longer apply, changes the class and is discarded by the shrinker)
+        for wi in 0..self.world.worldlines.len() {
+            let n_inst = self.world.worldlines[wi].state.insts.len();
+            if n_inst > 1 {
+                let mut s = self.clone();
+                s.world.worldlines[wi].state.insts.pop();
+                out.push(s);
+            }
+            for ii in 0..n_inst {
+                let inst = &self.world.worldlines[wi].state.insts[ii];
+                macro_rules! smaller {
+                    ($field:ident) => {
+                        if !inst.$field.is_empty() {
+                            let mut s = self.clone();
+                            s.world.worldlines[wi].state.insts[ii].$field.clear();
+                            out.push(s);
+                            if inst.$field.len() > 1 {
+                                let mut s = self.clone();
+                                s.world.worldlines[wi].state.insts[ii].$field.pop();
+                                out.push(s);
+                            }
+                        }
+                    };
+                }
+                smaller!(edge_atts);
+                smaller!(node_atts);
+                smaller!(edges);
+                smaller!(nodes);
+            }
+        }
+        if self.install_query && !self.ops.iter().any(|o| matches!(o, Op::Observe(Read::Obs(ObsSpec { proj: ProjSpec::Query { .. }, .. })))) {
+            let mut s = self.clone();
+            s.install_query = false;
+            out.push(s);
+        }
+        out
+    }
+}
+
+// ---------------------------------------------------------------------------
+// Execution
+// ---------------------------------------------------------------------------
+
+#[derive(Clone, PartialEq, Eq)]
+struct Fp {
+    r: Fingerprint,
+    p: Fingerprint,
+    e: [u8; 32],
+}
+
+/// Top-level-field fingerprints of the compact `{:?}` renderings (see `fp.rs`; the two `host_test`
+/// instrumentation fields are excluded there exactly as in the shared `fingerprint`).
+fn take_fp(w: &World) -> Fp {
+    Fp { r: fp::compact_fingerprint(&format!("{:?}", w.runtime)), p: fp::compact_fingerprint(&format!("{:?}", w.provenance)), e: w.fp_engine() }
+}
+
+fn fp_violation(before: &Fp, after: &Fp, what: &str) -> Option<V> {
+    let dr = before.r.diff(&after.r);
+    if !dr.is_empty() {
+        return Some((format!("read_mutated_runtime:{}", dr.join("+")), format!("{what}: runtime fields changed by a read: {dr:?}")));
+    }
+    let dp = before.p.diff(&after.p);
+    if !dp.is_empty() {
+        return Some((format!("read_mutated_provenance:{}", dp.join("+")), format!("{what}: provenance fields changed by a read: {dp:?}")));
+    }
+    if before.e != after.e {
+        return Some(("read_mutated_engine".to_owned(), format!("{what}: engine fingerprint changed by a read")));
+    }
+    None
+}
+
+enum Asked {
+    Obs { req: ObservationRequest, base: Option<ObservationArtifact>, base_commits: u64 },
+    Optic { req: ObserveOpticRequest, base: Option<(OpticReading, u64)>, base_commits: u64 },
+}
+
+struct Exec {
+    truth: Truth,
+    asked: Vec<Asked>,
+    fp: Option<Fp>,
+    reads: u64,
+    /// number of successful commits so far (all worldlines)
+    commits: u64,
+    forked: bool,
+    last_observed_after: Option<u64>,
+    /// artifact hash -> artifact with the hash field blanked; read identity hash -> identity
+    art_by_hash: BTreeMap<H, ObservationArtifact>,
+    id_by_hash: BTreeMap<H, warp_core::ReadIdentity>,
+    /// (worldline, tick) -> state root of the state replayed at cursor tick+1
+    replayed: BTreeMap<(u8, u64), H>,
+    dirty_since_reask: bool,
+    nontrivial: bool,
+}
+
+fn retention_posture() -> Result<RetentionPosture, String> {
+    let origin = OriginId::from_bytes([0x41; 32]);
+    let authority = AuthorityDomainRef::new(origin, AuthorityDomainId::from_bytes([0x42; 32]));
+    let ca = CausalAuthority::new(origin, ActorId::from_bytes([0x43; 32]), authority, AuthorityBinding::LocalUnbound { origin }, SealStrength::Advisory).map_err(|e| format!("{e:?}"))?;
+    RetentionPosture::new(CausalPosture::AuthorOnly, PostureDerivation::ExplicitIntent, ca, RetentionContractId::from_bytes([0x44; 32]), None).map_err(|e| format!("{e:?}"))
+}
+
+fn cbor<T: serde::Serialize>(x: &T) -> Vec<u8> {
+    echo_wasm_abi::encode_cbor(x).unwrap_or_else(|e| format!("encode error: {e:?}").into_bytes())
+}
+
+impl Exec {
+    fn new(s: &C16) -> Self {
+        let mut truth = Truth { query_installed: s.install_query, ..Truth::default() };
+        for wl in &s.world.worldlines {
+            truth.wls.insert(wl.id, Vec::new());
+        }
+        Exec {
+            truth,
+            asked: Vec::new(),
+            fp: None,
+            reads: 0,
+            commits: 0,
+            forked: false,
+            last_observed_after: None,
+            art_by_hash: BTreeMap::new(),
+            id_by_hash: BTreeMap::new(),
+            replayed: BTreeMap::new(),
+            dirty_since_reask: false,
+            nontrivial: false,
+        }
+    }
+
+    fn run(&mut self, s: &C16, w: &mut World, ctx: &mut RunCtx) -> Result<(), V> {
+        for (oi, op) in s.ops.iter().enumerate() {
+            match op {
+                Op::Deliver(intent) => {
+                    let r = w.deliver(intent);
+                    ctx.trace_str(&format!("deliver {}", r.is_ok()));
+                    ctx.count("time.deliveries", 1);
+                    self.fp = None;
+                }
+                Op::Pass => {
+                    let before_pass = self.fp.take();
+                    let r = w.pass();
+                    ctx.count("time.passes", 1);
+                    match r {
+                        PassResult::Ok(records) => {
+                            ctx.trace_str(&format!("pass {}", records.len()));
+                            self.record(&records, w)?;
+                            if !records.is_empty() {
+                                // harness self-check: the fingerprint must notice a commit
+                                let after_pass = take_fp(w);
+                                if let Some(b) = before_pass {
+                                    if b.r.diff(&after_pass.r).is_empty() || b.p.diff(&after_pass.p).is_empty() {
+                                        return Err(("harness_fingerprint_insensitive".to_owned(), format!("op#{oi}: a pass committed {} ticks but the runtime/provenance fingerprint did not move", records.len())));
+                                    }
+                                    ctx.hit("reach.fingerprint_saw_commit");
+                                }
+                                self.fp = Some(after_pass);
+                                ctx.count("time.commits", records.len() as u64);
+                                self.dirty_since_reask = true;
+                                self.reask_all(w, ctx, &format!("op#{oi} after pass"))?;
+                            }
+                        }
+                        PassResult::Err(e) => {
+                            ctx.trace_str("pass err");
+                            ctx.hit("reach.pass_failed");
+                            let _ = e;
+                        }
+                        PassResult::Panic(_) => {
+                            ctx.trace_str("pass panic");
+                            ctx.hit("reach.pass_panicked");
+                        }
+                    }
+                }
+                Op::Fork { src, tick_sel } => {
+                    if self.forked {
+                        continue;
+                    }
+                    let Some(len) = self.truth.len(*src) else { continue };
+                    let fork_tick = if len == 0 { 0 } else { u64::from(*tick_sel) % len };
+                    let posture = retention_posture().map_err(|e| ("harness_posture".to_owned(), e))?;
+                    let request = ForkStrandRequest {
+                        strand_id: req::strand_id(),
+                        source_lane_id: wl_id(*src),
+                        fork_tick: WorldlineTick::from_raw(fork_tick),
+                        child_worldline_id: wl_id(CHILD_WL),
+                        writer_heads: vec![WriterHead::with_routing(head_key(CHILD_WL, 0), PlaybackMode::Play, InboxPolicy::AcceptAll, None, true)],
+                        retention_posture: posture,
+                    };
+                    self.fp = None;
+                    let (rt, pv) = (&mut w.runtime, &mut w.provenance);
+                    match kernel::catch(move || rt.fork_strand(pv, request)) {
+                        Ok(Ok(_)) => {
+                            ctx.trace_str("fork ok");
+                            ctx.hit("reach.fork");
+                            self.forked = true;
+                            let prefix: Vec<TickFact> = self.truth.wls.get(src).map(|v| v[..=(fork_tick as usize)].to_vec()).unwrap_or_default();
+                            self.truth.wls.insert(CHILD_WL, prefix);
+                            self.truth.child_of = Some((*src, fork_tick));
+                            // the child inherits the parent's checkpoints up to the fork
+                            let e = self.truth.ckpt_epoch(*src);
+                            if e > 0 {
+                                self.truth.ckpts.insert(CHILD_WL, e);
+                            }
+                            self.dirty_since_reask = true;
+                            self.reask_all(w, ctx, &format!("op#{oi} after fork"))?;
+                        }
+                        Ok(Err(_)) => {
+                            ctx.trace_str("fork rejected");
+                            ctx.hit("reach.fork_rejected");
+                        }
+                        Err(_) => {
+                            ctx.trace_str("fork panicked");
+                            ctx.hit("reach.fork_panicked");
+                        }
+                    }
+                }
+                Op::Checkpoint { wl } => {
+                    if self.truth.len(*wl).is_none() {
+                        continue;
+                    }
+                    let id = wl_id(*wl);
+                    let Some(state) = w.runtime.worldlines().get(&id).map(|f| f.state().clone()) else { continue };
+                    self.fp = None;
+                    let pv = &mut w.provenance;
+                    match kernel::catch(move || pv.checkpoint(id, &state)) {
+                        Ok(Ok(_)) => {
+                            ctx.trace_str("checkpoint ok");
+                            ctx.hit("reach.checkpoint");
+                            *self.truth.ckpts.entry(*wl).or_insert(0) += 1;
+                            self.dirty_since_reask = true;
+                            self.reask_all(w, ctx, &format!("op#{oi} after checkpoint"))?;
+                        }
+                        _ => {
+                            ctx.trace_str("checkpoint rejected");
+                            ctx.hit("reach.checkpoint_rejected");
+                        }
+                    }
+                }
+                Op::Observe(read) => {
+                    if self.reads + 2 > MAX_READS {
+                        ctx.hit("reach.read_budget_exhausted");
+                        continue;
+                    }
+                    self.first_ask(read, w, ctx, oi)?;
+                }
+            }
+        }
+        if self.dirty_since_reask || !self.asked.is_empty() {
+            self.reask_all(w, ctx, "end of run")?;
+        }
+        Ok(())
+    }
+
+    fn record(&mut self, records: &[StepRecord], w: &World) -> Result<(), V> {
+        let warps = (0..ids::N_WARPS).map(ids::warp).collect::<Vec<_>>();
+        for (i, r) in records.iter().enumerate() {
+            let Some(wl) = wl_index(&r.head_key.worldline_id) else {
+                return Err(("truth_bookkeeping".to_owned(), format!("commit on unknown worldline {:?}", r.head_key)));
+            };
+            let last_of_wl = !records[i + 1..].iter().any(|x| x.head_key.worldline_id == r.head_key.worldline_id);
+            let abs_state = if last_of_wl { w.runtime.worldlines().get(&r.head_key.worldline_id).map(|f| abs(f.state().warp_state(), &warps)) } else { None };
+            let v = self.truth.wls.entry(wl).or_default();
+            v.push(TickFact { state_root: r.state_root, commit_hash: r.commit_hash, global_tick: r.commit_global_tick.as_u64(), abs: abs_state });
+            if r.worldline_tick_after.as_u64() != v.len() as u64 {
+                return Err(("truth_bookkeeping".to_owned(), format!("step record says tick_after {} but the harness counted {} commits on worldline {wl}", r.worldline_tick_after.as_u64(), v.len())));
+            }
+            self.commits += 1;
+        }
+        // the shared world's ground truth must agree for the worldlines it tracks
+        for (wl, live) in &w.live {
+            let v = self.truth.wls.get(wl).map(Vec::as_slice).unwrap_or(&[]);
+            let ok = live.len() == v.len() && live.iter().zip(v).all(|(l, f)| l.state_root == f.state_root && l.commit_hash == f.commit_hash && l.global_tick == f.global_tick);
+            if !ok {
+                return Err(("truth_bookkeeping".to_owned(), format!("world.live disagrees with the step records on worldline {wl}")));
+            }
+        }
+        Ok(())
+    }
+
+    fn fp_before(&mut self, w: &World) -> Fp {
+        match self.fp.take() {
+            Some(f) => f,
+            None => take_fp(w),
+        }
+    }
+
+    fn fp_after(&mut self, w: &World, before: &Fp, when: &str, what: &str) -> Result<(), V> {
+        let after = take_fp(w);
+        if let Some(v) = fp_violation(before, &after, &format!("{when}: re-issued {what}")) {
+            return Err(v);
+        }
+        self.fp = Some(after);
+        Ok(())
+    }
+
+    fn empty_root(&self, w: &World, id: &warp_core::WorldlineId) -> Option<H> {
+        let wl = wl_index(id)?;
+        if self.truth.len(wl)? != 0 {
+            return None;
+        }
+        w.runtime.worldlines().get(id).map(|f| f.state().state_root())
+    }
+
+    fn observe(&mut self, w: &World, req: &ObservationRequest) -> Result<Result<ObservationArtifact, ObservationError>, V> {
+        self.reads += 1;
+        let r = req.clone();
+        kernel::catch(|| ObservationService::observe(&w.runtime, &w.provenance, &w.engine, r)).map_err(|p| ("observe_panicked".to_owned(), format!("observe({req:?}) panicked: {p}")))
+    }
+
+    fn observe_optic(&mut self, w: &World, req: &ObserveOpticRequest) -> Result<ObserveOpticResult, V> {
+        self.reads += 1;
+        let r = req.clone();
+        kernel::catch(|| ObservationService::observe_optic(&w.runtime, &w.provenance, &w.engine, r)).map_err(|p| ("observe_panicked".to_owned(), format!("observe_optic({req:?}) panicked: {p}")))
+    }
+
+    /// Checks that hold for every served artifact regardless of when it was asked.
+    fn artifact_common(&mut self, w: &World, req: &ObservationRequest, a: &ObservationArtifact, ctx: &mut RunCtx) -> Result<(), V> {
+        // observation time is monotone
+        let obs = a.resolved.observed_after_global_tick.map(|g| g.as_u64());
+        if let (Some(prev), now) = (self.last_observed_after, obs) {
+            if now.is_none_or(|n| n < prev) {
+                return Err(("observed_after_not_monotone".to_owned(), format!("observed_after_global_tick went from {prev} to {now:?}")));
+            }
+        }
+        if obs.is_some() {
+            self.last_observed_after = obs;
+        }
+        // the artifact hash is an identity: equal content <=> equal hash (within this run)
+        let mut blank = a.clone();
+        blank.artifact_hash = [0; 32];
+        match self.art_by_hash.get(&a.artifact_hash) {
+            Some(prev) if *prev != blank => {
+                return Err(("artifact_hash_collision".to_owned(), format!("two different artifacts share artifact_hash {}: {prev:?} vs {blank:?}", hex::encode(a.artifact_hash))));
+            }
+            Some(_) => {}
+            None => {
+                if let Some((h, _)) = self.art_by_hash.iter().find(|(_, v)| **v == blank) {
+                    return Err(("same_request_different_artifact:artifact_hash".to_owned(), format!("identical artifact content hashed to {} and {}", hex::encode(h), hex::encode(a.artifact_hash))));
+                }
+                self.art_by_hash.insert(a.artifact_hash, blank);
+            }
+        }
+        // the state replayed at the coordinate has the root the reading reports
+        if let (ObservationAt::Tick(t), Some(wl)) = (req.coordinate.at, wl_index(&req.coordinate.worldline_id)) {
+            let key = (wl, t.as_u64());
+            let root = match self.replayed.get(&key) {
+                Some(r) => *r,
+                None => {
+                    let id = req.coordinate.worldline_id;
+                    let Some(frontier) = w.runtime.worldlines().get(&id) else { return Ok(()) };
+                    let Some(cursor) = t.checked_increment() else { return Ok(()) };
+                    let st = kernel::catch(|| w.provenance.replay_worldline_state_at(id, frontier.state(), cursor))
+                        .map_err(|p| ("replay_panicked".to_owned(), p))?
+                        .map_err(|e| ("reading_not_at_coordinate:replay_unavailable".to_owned(), format!("a reading was served at worldline {wl} tick {} but replay to that coordinate fails: {e:?}", t.as_u64())))?;
+                    ctx.hit("reach.replay_crosscheck");
+                    let r = st.state_root();
+                    self.replayed.insert(key, r);
+                    r
+                }
+            };
+            if root != a.resolved.state_root {
+                return Err(("reading_not_at_coordinate:replayed_state_root".to_owned(), format!("worldline {wl} tick {}: reading says state_root {} but the state replayed at that coordinate has root {}", t.as_u64(), hex::encode(a.resolved.state_root), hex::encode(root))));
+            }
+        }
+        Ok(())
+    }
+
+    fn optic_common(&mut self, rd: &OpticReading) -> Result<(), V> {
+        let mut blank = rd.read_identity.clone();
+        blank.read_identity_hash = [0; 32];
+        let h = rd.read_identity.read_identity_hash;
+        match self.id_by_hash.get(&h) {
+            Some(prev) if *prev != blank => Err(("read_identity_hash_collision".to_owned(), format!("two different read identities share hash {}: {prev:?} vs {blank:?}", hex::encode(h)))),
+            Some(_) => Ok(()),
+            None => {
+                if let Some((h2, _)) = self.id_by_hash.iter().find(|(_, v)| **v == blank) {
+                    return Err(("same_request_different_artifact:read_identity_hash".to_owned(), format!("identical read identity hashed to {} and {}", hex::encode(h2), hex::encode(h))));
+                }
+                self.id_by_hash.insert(h, blank);
+                Ok(())
+            }
+        }
+    }
+
+    fn first_ask(&mut self, read: &Read, w: &World, ctx: &mut RunCtx, oi: usize) -> Result<(), V> {
+        let before = self.fp_before(w);
+        ctx.count("time.reads", 1);
+        if self.forked {
+            ctx.hit("reach.after_fork");
+        }
+        match read {
+            Read::Obs(spec) => {
+                let req = obs_request(spec);
+                ctx.hit(&format!("reach.request.{}.{}", frame_name(req.frame), proj_name(&req.projection)));
+                let r1 = self.observe(w, &req)?;
+                let r2 = self.observe(w, &req)?;
+                let after = take_fp(w);
+                if let Some(v) = fp_violation(&before, &after, &format!("op#{oi} observe({req:?})")) {
+                    return Err(v);
+                }
+                self.fp = Some(after);
+                ctx.trace_str(&format!("{r1:?}"));
+                // (b) same request, same history
+                if r1 != r2 {
+                    return Err(("same_request_different_artifact".to_owned(), format!("op#{oi}: {req:?} issued twice in a row: {r1:?} vs {r2:?}")));
+                }
+                if let (Ok(a), Ok(b)) = (&r1, &r2) {
+                    if a.artifact_hash != b.artifact_hash || cbor(&a.to_abi()) != cbor(&b.to_abi()) {
+                        return Err(("same_request_different_artifact:abi".to_owned(), format!("op#{oi}: {req:?} issued twice in a row encodes differently")));
+                    }
+                }
+                let empty_root = self.empty_root(w, &req.coordinate.worldline_id);
+                check_obs(&req, &r1, &self.truth, empty_root)?;
+                match &r1 {
+                    Ok(a) => {
+                        self.artifact_common(w, &req, a, ctx)?;
+                        if matches!(a.projection, ObservationProjection::Query { .. }) {
+                            ctx.hit("reach.query_observer");
+                        }
+                        if wl_index(&req.coordinate.worldline_id) == Some(CHILD_WL) {
+                            ctx.hit("reach.child_read");
+                        }
+                        if req.coordinate.at == ObservationAt::Frontier {
+                            ctx.hit("reach.frontier_reading");
+                        } else {
+                            ctx.hit("reach.historical_reading");
+                        }
+                    }
+                    Err(e) => ctx.hit(&format!("reach.typed_error.{}", err_kind(e))),
+                }
+                if matches!(req.coordinate.at, ObservationAt::Tick(_)) && self.room_for(r1.is_ok()) && !self.asked.iter().any(|a| matches!(a, Asked::Obs { req: q, .. } if *q == req)) {
+                    self.asked.push(Asked::Obs { req, base: r1.ok(), base_commits: self.commits });
+                }
+            }
+            Read::Optic(spec) => {
+                let truth = &self.truth;
+                let recorded = |wl: u8, t: u64| truth.fact(wl, t).map(|f| f.commit_hash);
+                let unanchored = req::prov_unanchored(spec, &recorded);
+                let req = optic_request(spec, &recorded);
+                let r1 = self.observe_optic(w, &req)?;
+                let r2 = self.observe_optic(w, &req)?;
+                let after = take_fp(w);
+                if let Some(v) = fp_violation(&before, &after, &format!("op#{oi} observe_optic({req:?})")) {
+                    return Err(v);
+                }
+                self.fp = Some(after);
+                ctx.trace_str(&format!("{r1:?}"));
+                if r1 != r2 || cbor(&r1.to_abi()) != cbor(&r2.to_abi()) {
+                    return Err(("same_request_different_artifact:optic".to_owned(), format!("op#{oi}: {req:?} issued twice in a row: {r1:?} vs {r2:?}")));
+                }
+                let empty_root = optic_target(&req).and_then(|(id, _, _)| self.empty_root(w, &id));
+                check_optic(&req, &r1, &self.truth, empty_root)?;
+                let base = match &r1 {
+                    ObserveOpticResult::Reading(rd) => {
+                        ctx.hit("reach.optic_read");
+                        if matches!(rd.read_identity.witness_basis, WitnessBasis::CheckpointPlusTail { .. }) {
+                            ctx.hit("reach.optic_checkpoint_plus_tail");
+                        }
+                        if matches!(&req.coordinate, EchoCoordinate::Worldline { at: warp_core::CoordinateAt::Provenance(_), .. }) {
+                            ctx.hit("reach.optic_provenance_coordinate_read");
+                        }
+                        self.optic_common(rd)?;
+                        Some(((**rd).clone(), self.epoch_of(&req)))
+                    }
+                    ObserveOpticResult::Obstructed(o) => {
+                        ctx.hit(&format!("reach.optic_obstruction.{}", obstruction_kind(o.kind)));
+                        None
+                    }
+                };
+                if optic_is_historical(&req) && !unanchored && self.room_for(base.is_some()) && !self.asked.iter().any(|a| matches!(a, Asked::Optic { req: q, .. } if *q == req)) {
+                    self.asked.push(Asked::Optic { req, base, base_commits: self.commits });
+                }
+            }
+        }
+        Ok(())
+    }
+
+    fn room_for(&self, served: bool) -> bool {
+        let refused = self.asked.iter().filter(|a| matches!(a, Asked::Obs { base: None, .. } | Asked::Optic { base: None, .. })).count();
+        self.asked.len() < MAX_ASKED && (served || refused < MAX_ASKED_REFUSED)
+    }
+
+    fn epoch_of(&self, req: &ObserveOpticRequest) -> u64 {
+        optic_target(req).and_then(|(id, _, _)| wl_index(&id)).map_or(0, |wl| self.truth.ckpt_epoch(wl))
+    }
+
+    /// Re-issue every historical request against the history as it is now.
+    fn reask_all(&mut self, w: &World, ctx: &mut RunCtx, when: &str) -> Result<(), V> {
+        self.dirty_since_reask = false;
+        if self.asked.is_empty() {
+            return Ok(());
+        }
+        let mut asked = std::mem::take(&mut self.asked);
+        let mut result = Ok(());
+        for a in &mut asked {
+            if self.reads + 1 > MAX_READS {
+                ctx.hit("reach.read_budget_exhausted");
+                break;
+            }
+            if let Err(v) = self.reask_one(a, w, ctx, when) {
+                result = Err(v);
+                break;
+            }
+        }
+        self.asked = asked;
+        result
+    }
+
+    fn reask_one(&mut self, a: &mut Asked, w: &World, ctx: &mut RunCtx, when: &str) -> Result<(), V> {
+        ctx.count("time.reads", 1);
+        let before = self.fp_before(w);
+        match a {
+            Asked::Obs { req, base, base_commits } => {
+                let r = self.observe(w, req)?;
+                self.fp_after(w, &before, when, &format!("{req:?}"))?;
+                ctx.trace_str(&format!("{r:?}"));
+                check_obs(req, &r, &self.truth, None)?;
+                match (&r, base.as_ref()) {
+                    (Ok(now), Some(then)) => {
+                        self.artifact_common(w, req, now, ctx)?;
+                        ctx.hit("reach.historical_reask");
+                        if self.commits > *base_commits {
+                            self.nontrivial = true;
+                            ctx.hit("reach.historical_reask_after_commit");
+                        }
+                        if let Some(field) = diff_artifact(then, now) {
+                            return Err((format!("historical_reading_changed:{field}"), format!("{when}: {req:?} first answered {then:?}, now answers {now:?}")));
+                        }
+                    }
+                    (Ok(now), None) => {
+                        self.artifact_common(w, req, now, ctx)?;
+                        ctx.hit("reach.error_became_reading");
+                        *base = Some(now.clone());
+                        *base_commits = self.commits;
+                    }
+                    (Err(e), Some(then)) => {
+                        return Err((format!("historical_reading_lost:{}", err_kind(e)), format!("{when}: {req:?} first answered {then:?}, now refused with {e:?}")));
+                    }
+                    (Err(_), None) => ctx.hit("reach.refusal_reasked"),
+                }
+            }
+            Asked::Optic { req, base, base_commits } => {
+                let r = self.observe_optic(w, req)?;
+                self.fp_after(w, &before, when, &format!("{req:?}"))?;
+                ctx.trace_str(&format!("{r:?}"));
+                check_optic(req, &r, &self.truth, None)?;
+                let epoch = self.epoch_of(req);
+                match (&r, base.as_ref()) {
+                    (ObserveOpticResult::Reading(now), Some((then, then_epoch))) => {
+                        self.optic_common(now)?;
+                        ctx.hit("reach.historical_reask");
+                        ctx.hit("reach.optic_historical_reask");
+                        if self.commits > *base_commits {
+                            self.nontrivial = true;
+                            ctx.hit("reach.historical_reask_after_commit");
+                        }
+                        if let Some(field) = diff_optic(then, now, *then_epoch == epoch) {
+                            return Err((format!("historical_reading_changed:optic.{field}"), format!("{when}: {req:?} first answered {then:?}, now answers {now:?}")));
+                        }
+                        if *then_epoch != epoch {
+                            if then.read_identity.witness_basis != now.read_identity.witness_basis {
+                                ctx.hit("reach.optic_witness_basis_moved_with_checkpoint");
+                            }
+                            *base = Some(((**now).clone(), epoch));
+                        }
+                    }
+                    (ObserveOpticResult::Reading(now), None) => {
+                        self.optic_common(now)?;
+                        ctx.hit("reach.error_became_reading");
+                        *base = Some(((**now).clone(), epoch));
+                        *base_commits = self.commits;
+                    }
+                    (ObserveOpticResult::Obstructed(o), Some((then, then_epoch))) => {
+                        let live_tail = o.kind == warp_core::OpticObstructionKind::LiveTailRequiresReduction && *then_epoch != epoch;
+                        if !live_tail {
+                            return Err((format!("historical_reading_lost:optic.{}", obstruction_kind(o.kind)), format!("{when}: {req:?} first answered {then:?}, now obstructed with {o:?}")));
+                        }
+                        ctx.hit("reach.optic_live_tail_after_checkpoint");
+                        *base = None;
+                    }
+                    (ObserveOpticResult::Obstructed(_), None) => ctx.hit("reach.refusal_reasked"),
+                }
+            }
+        }
+        Ok(())
     }
 }
